@@ -72,7 +72,9 @@ def enforcement(res: Result, req: dict, identical: set):
     import math
     from fractions import Fraction
     from .c07 import enumerate_family, factor_of, family_bases
+    from .c06 import catalogue, convert
     from .common import rat
+    cat = catalogue()
     jobs, seen = [], set()
     for lst in sim.call_in_pool('harness.c07:enumerate_family', family_bases()):
         for j in lst:
@@ -92,6 +94,19 @@ def enforcement(res: Result, req: dict, identical: set):
             dflt = sc.get('default')
             if isinstance(dflt, (int, float)) and not isinstance(dflt, bool) and float(lo) <= float(dflt) <= float(hi):
                 jobs.append(dict(j, label='schema_default', text=f'{float(dflt)!r} {u}', v=rat(float(dflt))))
+            # the published bound holds in whatever listed unit the figure is written: twice the maximum / half a positive minimum,
+            # expressed exactly in every other unit of the same quantity (money units are C06's known business and left out)
+            if u in cat and not any(w_ in u for w_ in ('USD', 'cents', 'EUR')):
+                for w in sorted(cat):
+                    if w == u or not w or cat[w][0] != cat[u][0] or any(w_ in w for w_ in ('USD', 'cents', 'EUR')):
+                        continue
+                    outside = ([('above', Fraction(float(hi)) * 2)] if hi > 0 else []) + ([('below', Fraction(float(lo)) / 2)] if lo > 0 else [])
+                    for side, v in outside:
+                        x = float(convert(cat, v, u, w))
+                        back = convert(cat, Fraction(x), w, u)
+                        if not (math.isfinite(x) and (back > Fraction(float(hi)) * Fraction(3, 2) if side == 'above' else back < Fraction(float(lo)) * Fraction(3, 4))):
+                            continue
+                        jobs.append(dict(j, label=f'schema_{side}_in[{w}]', text=f'{x!r} {w}', v=rat(float(back))))
             for label, x, text in (('schema_minus_one', -1.0, '-1'), ('schema_zero', 0.0, '0')):      # bare, the way a sentinel would be written
                 if x < float(lo) and dflt != x and j['p'].get('cur') != rat(x) and j['p'].get('def') != rat(x):
                     jobs.append(dict(j, label=label, text=text, v=rat(x)))
